@@ -18,8 +18,10 @@ import (
 	"os"
 	"sort"
 	"strings"
+	"sync"
 	"sync/atomic"
 	"time"
+	"unicode/utf8"
 
 	"github.com/c4pt0r/kvql"
 )
@@ -345,15 +347,45 @@ func succPrefix(l string) (string, bool) {
 }
 
 // universe: every literal l and the end succ(l) of its prefix interval are cut points of the key
-// line; the universe holds every cut point c, c+"\x00" (a key strictly inside the cell above c that
-// is a prefix of no literal), every prefix of every literal, and below/above neighbours.  Literals
-// are printable, so c+"\x00" is below the next cut point: every cell of the partition is hit.
+// line ("" is always one).  The truth of a predicate on a key depends only on the key's position
+// relative to the cut points and, for `'lit' ^= key`, on the key being one of the finitely many
+// prefixes of a literal.  The universe holds every prefix of every literal, every cut point c and
+// c + "\x00"^(L+1) (L = the longest literal): that key is the representative of the open cell above c
+// when it lies below the next cut point c' (it is longer than every literal, so a prefix of none);
+// when it does not, c' = c + "\x00"^n is a literal and every key of the cell is one of its prefixes.
+// Literals may hold any byte (0x00, 0xff, ≥ 0x80): nothing here assumes printable text.
+// Below/above neighbours are added on top.
+func cellRep(c string, maxLit int) string { return c + strings.Repeat("\x00", maxLit+1) }
+
+func cutPoints(lits map[string]bool) (cs []string, maxLit int) {
+	cuts := map[string]bool{"": true}
+	for l := range lits {
+		if len(l) > maxLit {
+			maxLit = len(l)
+		}
+		cuts[l] = true
+		if s, ok := succPrefix(l); ok {
+			cuts[s] = true
+		}
+	}
+	for c := range cuts {
+		cs = append(cs, c)
+	}
+	sort.Strings(cs)
+	return cs, maxLit
+}
+
 func universe(p *pnode) []string {
 	lits := map[string]bool{}
 	p.literals(lits)
 	set := map[string]bool{}
 	for _, k := range baseKeys {
 		set[k] = true
+	}
+	cs, maxLit := cutPoints(lits)
+	for _, c := range cs {
+		set[c] = true
+		set[cellRep(c, maxLit)] = true
 	}
 	for l := range lits {
 		for i := 0; i <= len(l); i++ {
@@ -363,7 +395,6 @@ func universe(p *pnode) []string {
 		set[l+"\xff"] = true
 		set[l+"a"] = true
 		if s, ok := succPrefix(l); ok {
-			set[s] = true
 			set[s+"\x00"] = true
 		}
 		if n := len(l); n > 0 && l[n-1] > 0 {
@@ -379,34 +410,17 @@ func universe(p *pnode) []string {
 	return ks
 }
 
-// universeAdequate re-checks the claim above for one predicate: between any two adjacent cut points,
-// below the first and above the last there is a universe key that is a prefix of no literal.
+// universeAdequate re-checks the claim above for one predicate, cell by cell, without relying on
+// how the universe was built: every cut point is a universe key; the open cell above a cut point c
+// either holds a universe key that is a prefix of no literal, or all its keys (then finitely many:
+// c + "\x00"^j below the next cut point) are universe keys.
 func universeAdequate(p *pnode, u []string) bool {
 	lits := map[string]bool{}
 	p.literals(lits)
-	cuts := map[string]bool{}
-	for l := range lits {
-		cuts[l] = true
-		if s, ok := succPrefix(l); ok {
-			cuts[s] = true
-		}
-	}
-	cs := make([]string, 0, len(cuts))
-	for c := range cuts {
-		cs = append(cs, c)
-	}
-	sort.Strings(cs)
+	cs, maxLit := cutPoints(lits)
 	isLitPrefix := func(k string) bool {
 		for l := range lits {
 			if strings.HasPrefix(l, k) {
-				return true
-			}
-		}
-		return false
-	}
-	has := func(lo string, hasLo bool, hi string, hasHi bool) bool {
-		for _, k := range u {
-			if (!hasLo || k > lo) && (!hasHi || k < hi) && !isLitPrefix(k) {
 				return true
 			}
 		}
@@ -420,15 +434,29 @@ func universeAdequate(p *pnode, u []string) bool {
 		if !inU[c] {
 			return false
 		}
-		if i == 0 && c > "\x00" && !has("", false, c, true) {
+		hasHi := i+1 < len(cs)
+		hi := ""
+		if hasHi {
+			hi = cs[i+1]
+		}
+		found := false
+		for _, k := range u {
+			if k > c && (!hasHi || k < hi) && !isLitPrefix(k) {
+				found = true
+				break
+			}
+		}
+		if found {
+			continue
+		}
+		// no representative: the cell must be finite and entirely inside the universe
+		if !hasHi || cellRep(c, maxLit) < hi {
 			return false
 		}
-		if i+1 < len(cs) {
-			if !has(c, true, cs[i+1], true) {
+		for k := c + "\x00"; k < hi; k += "\x00" {
+			if !inU[k] {
 				return false
 			}
-		} else if !has(c, true, "", false) {
-			return false
 		}
 	}
 	return true
@@ -485,9 +513,52 @@ func fixedAtoms() []*pnode {
 	}
 }
 
+// hiLits: literals with the bytes 0xff, 0x00 and ≥ 0x80 — the ends of the byte order, where the
+// "next prefix" of a literal needs a carry ("k\xff" → "l", "\xff" → none) and where a key directly
+// above a literal ("a\x00") is itself a literal.  The query text carries the bytes raw inside the
+// quotes (the lexer has no escapes); the wire format is hex.
+var hiLits = []string{"k\xff", "\xff", "a\x00", "\x80", "k\xfe\xff", "l", "k", "\xff\xff"}
+
+// hiAtoms: a reduced atom list over hiLits (every operator, both sides for the order operators,
+// IN and BETWEEN over neighbours)
+func hiAtoms() []*pnode {
+	var as []*pnode
+	for _, l := range hiLits {
+		for _, op := range cmpOps {
+			as = append(as, &pnode{kind: pCmp, op: op, lits: []string{l}})
+		}
+	}
+	for _, l := range []string{"k\xff", "\xff", "a\x00"} {
+		for _, op := range []string{"^=", "<", ">="} {
+			as = append(as, &pnode{kind: pCmp, op: op, lits: []string{l}, litLeft: true})
+		}
+	}
+	as = append(as,
+		&pnode{kind: pIn, lits: []string{"k\xff", "\xff"}},
+		&pnode{kind: pIn, lits: []string{"a\x00", "\x80", "a\x00"}},
+		&pnode{kind: pBetween, lits: []string{"k", "k\xff"}},
+		&pnode{kind: pBetween, lits: []string{"k\xfe\xff", "l"}},
+		&pnode{kind: pBetween, lits: []string{"\x80", "\xff"}},
+		&pnode{kind: pBetween, lits: []string{"a\x00", "a\x00"}},
+		&pnode{kind: pCmp, op: "^=", lits: []string{"a"}},
+		&pnode{kind: pCmp, op: "^=", lits: []string{"b"}},
+		&pnode{kind: pOpaque, opq: 0})
+	return as
+}
+
 func randLit(r *Rand) string {
-	if r.Chance(4, 5) {
+	switch x := r.Intn(20); {
+	case x < 13:
 		return pick(r, smallLits)
+	case x < 16:
+		return pick(r, hiLits)
+	case x < 18:
+		n := 1 + r.Intn(3)
+		b := make([]byte, n)
+		for i := range b {
+			b[i] = pick(r, []byte("kkl\xff\xff\xfe\x00\x80a"))
+		}
+		return string(b)
 	}
 	n := r.Intn(4)
 	b := make([]byte, n)
@@ -597,7 +668,7 @@ func (x *scanCtx) checkOne(p *pnode, idx uint64, r *Rand) error {
 		return ""
 	})
 	if panicked {
-		c.Find(Finding{Kind: "crash", Group: "SCAN", Check: "parse", Case: q, Engine: perr, Seed: x.seed, Index: idx, Properties: []string{"C06"}})
+		c.Find(Finding{Kind: "crash", Group: "SCAN", Check: "parse", Case: visible(q), Engine: perr, Seed: x.seed, Index: idx, Properties: []string{"C06"}})
 		return nil
 	}
 	if perr != "" {
@@ -619,7 +690,7 @@ func (x *scanCtx) checkOne(p *pnode, idx uint64, r *Rand) error {
 		return planA.String()
 	})
 	if panicked {
-		c.Find(Finding{Kind: "crash", Group: "SCAN", Check: "optimize", Case: q, Engine: out, Seed: x.seed, Index: idx, Properties: []string{"C06"}})
+		c.Find(Finding{Kind: "crash", Group: "SCAN", Check: "optimize", Case: visible(q), Engine: out, Seed: x.seed, Index: idx, Properties: []string{"C06"}})
 		return nil
 	}
 	lineA := x.modelOp + " " + wireRaw
@@ -628,7 +699,7 @@ func (x *scanCtx) checkOne(p *pnode, idx uint64, r *Rand) error {
 		return err
 	}
 	if modelA != out {
-		c.Find(Finding{Kind: "correspondence", Group: "SCAN", Check: "scan-plan", Case: q, Line: lineA, Engine: out, Model: modelA, Seed: x.seed, Index: idx, Properties: []string{"C02", "C18"}})
+		c.Find(Finding{Kind: "correspondence", Group: "SCAN", Check: "scan-plan", Case: visible(q), Line: lineA, Engine: out, Model: modelA, Seed: x.seed, Index: idx, Properties: []string{"C02", "C18"}})
 	}
 
 	// --- correspondence B: NewOptimizer + BuildPlan (constant folding first)
@@ -656,7 +727,7 @@ func (x *scanCtx) checkOne(p *pnode, idx uint64, r *Rand) error {
 		return planB.String()
 	})
 	if panickedB {
-		c.Find(Finding{Kind: "crash", Group: "SCAN", Check: "buildplan", Case: q, Engine: outB, Seed: x.seed, Index: idx, Properties: []string{"C06"}})
+		c.Find(Finding{Kind: "crash", Group: "SCAN", Check: "buildplan", Case: visible(q), Engine: outB, Seed: x.seed, Index: idx, Properties: []string{"C06"}})
 		return nil
 	}
 	if strings.HasPrefix(outB, "plan-error") || outB == "no-projection" {
@@ -677,10 +748,10 @@ func (x *scanCtx) checkOne(p *pnode, idx uint64, r *Rand) error {
 					return err
 				}
 				if modelB != outB {
-					c.Find(Finding{Kind: "correspondence", Group: "SCAN", Check: "scan-plan-folded", Case: q, Line: lineB, Engine: outB, Model: modelB, Seed: x.seed, Index: idx, Properties: []string{"C02", "C18"}})
+					c.Find(Finding{Kind: "correspondence", Group: "SCAN", Check: "scan-plan-folded", Case: visible(q), Line: lineB, Engine: outB, Model: modelB, Seed: x.seed, Index: idx, Properties: []string{"C02", "C18"}})
 				}
 			} else if outB != out {
-				c.Find(Finding{Kind: "correspondence", Group: "SCAN", Check: "buildplan-vs-bare", Case: q, Line: lineA, Engine: outB, Model: out, Seed: x.seed, Index: idx, Properties: []string{"C02", "C18"}})
+				c.Find(Finding{Kind: "correspondence", Group: "SCAN", Check: "buildplan-vs-bare", Case: visible(q), Line: lineA, Engine: outB, Model: out, Seed: x.seed, Index: idx, Properties: []string{"C02", "C18"}})
 			}
 		}
 	}
@@ -698,7 +769,7 @@ func (x *scanCtx) checkOne(p *pnode, idx uint64, r *Rand) error {
 			break
 		}
 		if k, v, bad := c02Violation(p, plan, u); bad {
-			c.Find(Finding{Kind: "property", Group: "SCAN", Check: "C02-region", Case: q, Line: lineA,
+			c.Find(Finding{Kind: "property", Group: "SCAN", Check: "C02-region", Case: visible(q), Line: lineA,
 				Engine: plan.String(), Model: "key " + hxs(k) + " value " + hxs(v) + " satisfies the filter but lies outside the region",
 				Seed: x.seed, Index: idx, Properties: []string{"C02"}})
 		}
@@ -718,7 +789,7 @@ func (x *scanCtx) checkOne(p *pnode, idx uint64, r *Rand) error {
 				want = "in"
 			}
 			if ans != want {
-				c.Find(Finding{Kind: "correspondence", Group: "SCAN", Check: "region-test", Case: q + " key " + hxs(k), Line: line, Engine: want, Model: ans, Seed: x.seed, Index: idx, Properties: []string{"C02", "C18"}})
+				c.Find(Finding{Kind: "correspondence", Group: "SCAN", Check: "region-test", Case: visible(q) + " key " + hxs(k), Line: line, Engine: want, Model: ans, Seed: x.seed, Index: idx, Properties: []string{"C02", "C18"}})
 			}
 		}
 	}
@@ -745,7 +816,7 @@ func (x *scanCtx) checkOne(p *pnode, idx uint64, r *Rand) error {
 				mode = "batch"
 			}
 			if res.Panic != "" {
-				c.Find(Finding{Kind: "crash", Group: "SCAN", Check: "run-" + mode, Case: q, Engine: "panic: " + res.Panic, Seed: x.seed, Index: idx, Properties: []string{"C06"}})
+				c.Find(Finding{Kind: "crash", Group: "SCAN", Check: "run-" + mode, Case: visible(q), Engine: "panic: " + res.Panic, Seed: x.seed, Index: idx, Properties: []string{"C06"}})
 				continue
 			}
 			if res.Err != nil {
@@ -781,11 +852,29 @@ func (x *scanCtx) checkOne(p *pnode, idx uint64, r *Rand) error {
 			if class == "duplicate-rows" || class == "rows-extra" {
 				props = []string{"C01"}
 			}
-			c.Find(Finding{Kind: "property", Group: "SCAN", Check: "rows-" + mode, Case: q, Line: lineA, Class: class,
+			c.Find(Finding{Kind: "property", Group: "SCAN", Check: "rows-" + mode, Case: visible(q), Line: lineA, Class: class,
 				Engine: planB.String() + " rows " + gots, Model: "filter-every-pair " + wants, Seed: x.seed, Index: idx, Properties: props})
 		}
 	}
 	return nil
+}
+
+// visible renders a statement for a finding's Case: control bytes and bytes that are not part of
+// a valid UTF-8 sequence as \xNN (a JSON summary would turn them all into U+FFFD); the exact bytes
+// are in the finding's Line
+func visible(s string) string {
+	var b strings.Builder
+	for i := 0; i < len(s); {
+		r, n := utf8.DecodeRuneInString(s[i:])
+		if (r == utf8.RuneError && n <= 1) || r < 0x20 || r == 0x7f {
+			fmt.Fprintf(&b, "\\x%02x", s[i])
+			i++
+			continue
+		}
+		b.WriteString(s[i : i+n])
+		i += n
+	}
+	return b.String()
 }
 
 func c02Violation(p *pnode, plan scanRegion, u []string) (string, string, bool) {
@@ -837,7 +926,7 @@ func (x *scanCtx) checkDelete(p *pnode, ptext string, u []string, idx uint64) {
 		return fmt.Sprintf("?%T", fp)
 	})
 	if panicked {
-		c.Find(Finding{Kind: "crash", Group: "SCAN", Check: "delete-buildplan", Case: q, Engine: out, Seed: x.seed, Index: idx, Properties: []string{"C06"}})
+		c.Find(Finding{Kind: "crash", Group: "SCAN", Check: "delete-buildplan", Case: visible(q), Engine: out, Seed: x.seed, Index: idx, Properties: []string{"C06"}})
 		return
 	}
 	if strings.HasPrefix(out, "plan-error") {
@@ -861,7 +950,7 @@ func (x *scanCtx) checkDelete(p *pnode, ptext string, u []string, idx uint64) {
 		}
 	}
 	if model != out {
-		c.Find(Finding{Kind: "correspondence", Group: "SCAN", Check: "delete-plan", Case: q, Line: line, Engine: out, Model: model, Seed: x.seed, Index: idx, Properties: []string{"C02"}})
+		c.Find(Finding{Kind: "correspondence", Group: "SCAN", Check: "delete-plan", Case: visible(q), Line: line, Engine: out, Model: model, Seed: x.seed, Index: idx, Properties: []string{"C02"}})
 	}
 	c.Hist("delete:" + strings.Fields(out)[0])
 	if isRemove {
@@ -876,7 +965,7 @@ func (x *scanCtx) checkDelete(p *pnode, ptext string, u []string, idx uint64) {
 		for _, k := range uu {
 			for _, v := range valuePool {
 				if p.eval(k, v) != in[k] {
-					c.Find(Finding{Kind: "property", Group: "SCAN", Check: "C02-delete-exact", Case: q, Line: line, Engine: out,
+					c.Find(Finding{Kind: "property", Group: "SCAN", Check: "C02-delete-exact", Case: visible(q), Line: line, Engine: out,
 						Model: fmt.Sprintf("key %s value %s: filter says %v, key list says %v", hxs(k), hxs(v), p.eval(k, v), in[k]),
 						Seed:  x.seed, Index: idx, Properties: []string{"C02", "C11"}})
 					return
@@ -937,7 +1026,7 @@ func (x *scanCtx) checkC18(p *pnode, q, line string, plan scanRegion, u []string
 	c := x.c
 	cs := p.conjuncts(nil)
 	find := func(check, what string) {
-		c.Find(Finding{Kind: "property", Group: "SCAN", Check: check, Case: q, Line: line, Engine: plan.String(), Model: what,
+		c.Find(Finding{Kind: "property", Group: "SCAN", Check: check, Case: visible(q), Line: line, Engine: plan.String(), Model: what,
 			Seed: x.seed, Index: idx, Properties: []string{"C18"}})
 	}
 	// (i) a conjunction with a pinning conjunct reads inside the region of one pinning conjunct
@@ -1051,6 +1140,15 @@ func (x *scanCtx) checkC18(p *pnode, q, line string, plan scanRegion, u []string
 	if unsat != "" {
 		if plan.kind == "EMPTY" {
 			c.Hist("c18:unsat-empty")
+		} else if len(pins) > 2 && (unsat == "two incompatible prefixes" || unsat == "two disjoint ranges") {
+			// a third key conjunct of another kind between the two: AND is folded pairwise along the
+			// tree, and PREFIX ∩ RANGE keeps an over-approximation (key ^= 'b' & key >= 'ba' → RANGE[ba,∞)),
+			// so `key ^= 'c' & (key ^= 'b' & key >= 'ba')` reads PREFIX c: still inside a pinned region
+			// (checked above), but not "nothing".  Outside the canonical shapes of C18; counted.
+			c.Hist("c18:unsat-three-key-conjuncts-not-empty")
+			c18ObsOnce.Do(func() {
+				c.Note("C18 observation (counted as c18:unsat-three-key-conjuncts-not-empty, not a finding): " + visible(q) + " is unsatisfiable (" + unsat + ") and is planned as " + plan.String() + ", not EMPTY")
+			})
 		} else if onlyAtomPinsAndOpaque || unsat == "false" {
 			find("C18-unsat", unsat+" as conjuncts should read nothing")
 		} else {
@@ -1059,6 +1157,8 @@ func (x *scanCtx) checkC18(p *pnode, q, line string, plan scanRegion, u []string
 		}
 	}
 }
+
+var c18ObsOnce sync.Once
 
 func isRangeAtom(p *pnode) bool {
 	if p.kind == pBetween {
@@ -1106,6 +1206,26 @@ func runSCAN(e *Env) (*Summary, error) {
 	} else {
 		cases = depth1(allAtoms(smallLits), binOps)
 	}
+	// literals with the bytes 0xff / 0x00 / ≥ 0x80: depth ≤ 1 over the reduced atom list (quick: & |;
+	// thorough: all four connectives, and depth 2 over the prefix atoms)
+	if e.Tier == "thorough" {
+		cases = append(cases, depth1(hiAtoms(), binOps)...)
+		var pre []*pnode
+		for _, l := range append(append([]string{}, hiLits...), "a", "") {
+			pre = append(pre, &pnode{kind: pCmp, op: "^=", lits: []string{l}})
+		}
+		pre = append(pre, &pnode{kind: pOpaque, opq: 1}, &pnode{kind: pCmp, op: ">=", lits: []string{"k\xff"}}, &pnode{kind: pCmp, op: "<", lits: []string{"\xff"}})
+		d1p := depth1(pre, []string{"&", "|"})
+		for _, op := range []string{"&", "|"} {
+			for _, a := range d1p {
+				for _, b := range pre {
+					cases = append(cases, &pnode{kind: pBin, op: op, l: a, r: b})
+				}
+			}
+		}
+	} else {
+		cases = append(cases, depth1(hiAtoms(), []string{"&", "|"})...)
+	}
 	nExh := len(cases)
 	nRand := e.n(20_000, 500_000)
 	var inadequate, rejected int64
@@ -1138,6 +1258,7 @@ func runSCAN(e *Env) (*Summary, error) {
 	s.Notes = append(s.Notes,
 		fmt.Sprintf("exhaustive trees: %d (quick: depth ≤ 1 over %d atoms × 4 connectives; thorough adds depth ≤ 2 over %d fixed + %d seeded atoms), random trees: %d (depth ≤ 5)",
 			nExh, len(allAtoms(smallLits)), len(fixedAtoms()), len(fixedAtoms()), nRand),
+		fmt.Sprintf("literals with the bytes 0xff, 0x00, ≥ 0x80 (%d atoms over %q): depth ≤ 1 in both tiers, depth 2 over the prefix atoms in the thorough tier; 7 in 20 random literals hold such bytes", len(hiAtoms()), hiLits),
 		fmt.Sprintf("statements rejected by the parser/checker (skipped): %d", rejected),
 		fmt.Sprintf("predicates whose key universe failed the adequacy re-check: %d (must be 0)", inadequate),
 		"C18 reads `key > l` as pinning the closed half-line [l, ∞) (a range scan is inclusive); `between` with lower > upper (a run-time error in kvql) is read as pinning the swapped interval, as the planner does",
